@@ -43,6 +43,7 @@ def check_C01(ctx, tier):
         W.rule_W_STORE(ctx, d, paths)
         W.rule_W_RET(ctx, d, paths)
         W.rule_W_INTERNAL(ctx, d, paths)
+        W.rule_W_SAFE(ctx, d, paths)               # a klepto.safe wrapper returns f(a) wherever the undecorated call would (no key-building failure escapes)
         W.rule_W_WRITERS(ctx, d)
         if d.name == 'lru_cache':
             _sample_paths(ctx, d, paths, lambda o: o.kind == 'return' and any(e.kind == 'DEL' for e in o.st.events))
@@ -192,6 +193,7 @@ def check_C16(ctx, tier):
         W.rule_W_SAFE(ctx, d, paths)
         W.rule_W_BKRES(ctx, d, paths)              # a key recorded in the bookkeeping without being resident makes a later, ordinary call fail inside the wrapper
         W.rule_W_INTERNAL(ctx, d, paths)           # nothing but the function's own exception (or, outside klepto.safe, an unhashable key) leaves the call
+        W.rule_W_NEW(ctx, d, parts=('dispatch', 'forward'))   # maxsize=0 / None hand over to the no_cache / inf_cache of the *same* module (the safe ones stay safe)
         if d.name == 'lru_cache' and d.modname == 'safe':
             _sample_paths(ctx, d, paths, lambda o: any(e.kind == 'GETERR' for e in o.st.events))
     A.rule_A_READFAIL(ctx, ctx.repo, A.Cache(ctx.repo, unroll=1))   # the archive probe on a miss answers "absent" (KeyError) for a key it cannot read; anything else escapes the wrapper before the function ran
@@ -210,6 +212,7 @@ def check_C18(ctx, tier):
         W.rule_W_IFACE(ctx, d)
         W.rule_W_UPDATER(ctx, d)
         W.rule_W_STATE(ctx, d, keys=('keymap', 'ignore'), allow_default=True)   # the keymap / ignore key() uses are this decorator's own
+    A.rule_A_SCHEMA(ctx, ctx.repo)     # key(args) names the entry also after a trip through the archive (keys come back with the type they were stored with)
     return ('key() returns the same normal form K the wrapper looks up and stores under (36 sites), lookup() returns GET(K) and lets '
             'KeyError escape, neither evaluates nor mutates; interface attributes are wired to the decorator\'s own cache/keymap/ignore.')
 
@@ -227,6 +230,7 @@ def check_C09(ctx, tier):
     G.rule_G(ctx, ctx.repo, want=('G-VAL', 'G-PREC'))
     G.rule_G_STALE(ctx, ctx.repo)
     RR.rule_R_GUARD_STR_KW(ctx, ctx.repo)          # rounding, which runs before the binding to names, treats a value alike whether it came positionally or by keyword
+    RR.rule_R_DEEP(ctx, ctx.repo)                  # ... at every depth (positional and keyword containers are rebuilt the same way)
     for d, paths in _wrappers(ctx, tier):
         W.setup_abbrev(d)
         W.rule_W_KEY(ctx, d, paths)
@@ -266,6 +270,8 @@ def check_C17(ctx, tier):
     K.rule_K_BYREF(ctx, ctx.repo)   # dill pickles by reference
     S.rule_S_LOAD_DUMP(ctx, ctx.repo)   # the key is handed to the archive as the one object it is (a raw key is a tuple: never unpacked into several keys)
     RR.rule_R_STATELESS(ctx, ctx.repo)  # rounding (the first step of every key) keeps no state between calls
+    RR.rule_R_GUARD_STR_KW(ctx, ctx.repo)   # ... and rounds floats only (round(Decimal, n) follows the thread's decimal context)
+    A.rule_A_FNAME(ctx, ctx.repo, A.Cache(ctx.repo, unroll=1))   # the entry a key is archived under has the same name in every session
     ctx.assume("process independence of the arguments' own repr/pickle is assumed by the property")
     return ('No process-dependent value (builtin hash, id, random, time, set iteration) reaches a key in the raw/string/pickle/named-hash '
             'configurations; keyword order is removed by the sorter; marker objects embedded in keys have constant reprs.')
@@ -291,6 +297,7 @@ def check_C11(ctx, tier):
         W.rule_W_RED(ctx, d)                       # a copied / pickled decorator keeps the ignore spec as given
         W.rule_W_STATE(ctx, d, keys=('ignore',), allow_default=True)
     RR.rule_W_KEY_keygen(ctx, ctx.repo)
+    RR.rule_R_DEEP(ctx, ctx.repo)                  # an argument is rounded the same whatever other (ignored) arguments accompany it
     ctx.assume("which positions/names a given spec selects for a given signature (the index/name arithmetic of _keygen) is value-level and not decided")
     return ('Necessary conditions for "ignored arguments never influence the key, all others still do": every advertised form of the ignore '
             'specification (index, name, \'*\', \'**\') has a handler that reaches the positional resp. keyword part of the key and substitutes a '
@@ -352,6 +359,8 @@ def check_C08(ctx, tier):
     S.rule_S_IDENT(ctx, ctx.repo)             # the archiving switch does not depend on the identity of a per-process placeholder
     A.rule_A_NONE_ABSENT(ctx, ctx.repo)       # load / dump / sync never take a stored None for an absent key
     A.rule_A_CODEC_CONFIG(ctx, ctx.repo)      # what load() reads carries the keys and values that were stored (no guessing conversion on the way back)
+    A.rule_A_SCHEMA(ctx, ctx.repo)            # after dump() a key reads back the value written last (sqlite row order, untyped columns)
+    A.rule_A_READFAIL(ctx, ctx.repo, ac8)     # dump / load / sync on an archive whose file is empty or unreadable treat it as empty
     ctx.assume('archive.update / __asdict__ / __getitem__ of each backend behave as dict operations (C03)')
     return ('class cache overrides no dict primitive; per-method archive effects equal the table (load reads, dump updates, sync '
             'clears?/updates/reads, toggles rebind, others none); load/dump transfer exactly {a: source[a]} per argument or the whole '
@@ -410,6 +419,8 @@ def check_C04(ctx, tier):
     A.rule_A_VIS_STAGE(ctx, ctx.repo, cache)       # a fresh handle sees no key that was never stored
     A.rule_A_ABS(ctx, ctx.repo, cache)
     A.rule_A_FNAME(ctx, ctx.repo, cache)           # a later session finds an entry under the same name
+    A.rule_A_LAZY(ctx, ctx.repo)                   # ... every one of them (listings are materialised: items() over a shared cursor would stop after the first)
+    A.rule_A_READFAIL(ctx, ctx.repo, cache)        # ... or learns that it is not there; never an error of the decoding step
     A.rule_A_CODEC(ctx, ctx.repo)                  # ... and decodes it with the module that encoded it
     A.rule_A_SIBLINGS(ctx, ctx.repo)               # ... in every reader of the dict interface
     A.rule_A_CODEC_CONFIG(ctx, ctx.repo)         # ... decided by the archive's settings, not by what the value looks like
@@ -475,6 +486,7 @@ def check_C20(ctx, tier):
     A.rule_A_RED_COPY(ctx, ctx.repo, cache)
     A.rule_A_RED_MEM(ctx, ctx.repo)
     A.rule_A_RED_DERIVED(ctx, ctx.repo)  # nothing computed from the settings lives outside __state__ (the constructor re-runs with defaults on unpickling)
+    A.rule_A_ABS(ctx, ctx.repo, cache)   # the clone addresses the same store whatever its working directory
     A.rule_A_FACTORY_OPEN(ctx, ctx.repo, cache, open_only=True, factories=False)  # unpickling re-runs the constructor on the shared store: it must not write it
     A.rule_A_EFF(ctx, ctx.repo, cache, must_read_only=True)     # clone and original share storage only: every read goes to the store, not to a process-wide table
     S.rule_S_RED(ctx, ctx.repo)
